@@ -121,25 +121,35 @@ theorem recordAttempt_connId (l : FLink F) (now : Nat) : (l.recordAttempt now).c
   unfold FLink.recordAttempt; split <;> rfl
 
 /-- The per-link pass of housekeeping. -/
+theorem recordAttempt_lastAttempt (l : FLink F) (now : Nat) : (l.recordAttempt now).lastAttemptMs = now := by
+  unfold FLink.recordAttempt; split <;> rfl
+
 theorem hkLinksGo_pw (classic : Bool) (now : Nat) :
-    ∀ (ls : List (FLink F)) (i : Nat) (reg : Reg.Reg), Pw (HkRel now) ls (hkLinksGo classic now ls i reg).1 := by
+    ∀ (ls : List (FLink F)) (i : Nat) (reg : Reg.Reg) (fb : List Nat),
+      Pw (HkRel now) ls (hkLinksGo classic now ls i reg fb).1 := by
   intro ls
   induction ls with
-  | nil => intro i reg; exact .nil
+  | nil => intro i reg fb; exact .nil
   | cons l rest ih =>
-    intro i reg
+    intro i reg fb
     unfold hkLinksGo
     have hc := recordAttempt_connId l now
+    have ha := recordAttempt_lastAttempt l now
     split
     · split
-      · -- reconnect: `reset_for_reconnect`
-        dsimp only
-        split
-        · split
-          · exact .cons (hk_reset_rel now l _ rfl rfl hc rfl rfl rfl) (ih _ _)
-          · exact .cons (hk_reset_rel now l _ rfl rfl hc rfl rfl rfl) (ih _ _)
-        · exact .cons (hk_reset_rel now l _ rfl rfl hc rfl rfl rfl) (ih _ _)
-      · exact .cons (HkRel.of_dview rfl) (ih _ _)
+      · -- reconnect: `reset_for_reconnect`, or `mark_for_recovery` when the socket re-creation fails
+        cases hf : fb.contains l.core.connId <;> simp only [hf, Bool.false_eq_true, if_false, if_true]
+        all_goals
+          split
+          · split
+            all_goals
+              first
+                | exact .cons (hk_reset_rel now l _ rfl rfl hc rfl rfl rfl) (ih _ _ _)
+                | exact .cons (hk_reset_rel now l _ rfl rfl hc ha rfl rfl) (ih _ _ _)
+          · first
+              | exact .cons (hk_reset_rel now l _ rfl rfl hc rfl rfl rfl) (ih _ _ _)
+              | exact .cons (hk_reset_rel now l _ rfl rfl hc ha rfl rfl) (ih _ _ _)
+      · exact .cons (HkRel.of_dview rfl) (ih _ _ _)
     · split
       rename_i l1 w1 h1
       have e1 : dview l1 = dview l := by
@@ -153,7 +163,7 @@ theorem hkLinksGo_pw (classic : Bool) (now : Nat) :
         · cases h2; rfl
         · cases h2; rfl
       dsimp only
-      refine .cons (HkRel.of_dview ?_) (ih _ _)
+      refine .cons (HkRel.of_dview ?_) (ih _ _ _)
       rw [recomputeBatchRegime_dview, (updatePhase_dview _ _).1, ← e1, ← e2]
       split <;> rfl
 
@@ -178,8 +188,8 @@ theorem hk_links (s : Sys F) (now : Nat) :
       · exact Pw.refl (R := Same) (fun _ => rfl) _
     · exact Pw.refl (R := Same) (fun _ => rfl) _
   clear hA
-  generalize hG : hkLinksGo s.cfg.classic now A.2 0 A.1 = G
-  have hG2 : Pw (HkRel now) A.2 G.1 := by rw [← hG]; exact hkLinksGo_pw _ _ _ _ _
+  generalize hG : hkLinksGo s.cfg.classic now A.2 0 A.1 s.failBind = G
+  have hG2 : Pw (HkRel now) A.2 G.1 := by rw [← hG]; exact hkLinksGo_pw _ _ _ _ _ _
   clear hG
   have h02 : Pw (HkRel now) s.links G.1 := hA2.comp hG2 (fun _ _ _ => HkRel.same_left)
   generalize (Reg.regDriverPendingSends _ now).2 = sends
